@@ -343,9 +343,21 @@ Qed.
 Definition st_of (o : ipglob) : (Z * Z) * (Z * Z) * option string := ((4, g_start o), (4, g_end o), g_glob o).
 Definition obj_of (s e : Z * Z) (g : option string) : ipglob := {| g_start := snd s; g_end := snd e; g_glob := g |}.
 
-(* what C05 says of the translated iprange_to_cidrs on IPv4 bounds: IPv4 blocks inside the address space *)
+(* what C05 says of the translated iprange_to_cidrs on valid ordered IPv4 bounds: IPv4 blocks inside the address space
+   (proved from C05 in Proofs/GenOk_Src_C17_closed.v; a hypothesis here, so that this file does not depend on the C05 proofs) *)
 Definition to_cidrs_wf : Prop :=
-  forall s e nets, src_iprange_to_cidrs (py_net_of_addr (4, s)) (py_net_of_addr (4, e)) = Ok nets -> Forall net4_ok nets.
+  forall s e nets, 0 <= s <= e -> e < 2 ^ 32 ->
+    src_iprange_to_cidrs (py_net_of_addr (4, s)) (py_net_of_addr (4, e)) = Ok nets -> Forall net4_ok nets.
+
+(* the bounds of a glob the model parses are valid and ordered (Proofs/C17.v: valid_glob_iff, convert_spec) *)
+From NV Require Proofs.C17.
+Lemma iptuple_bounds g a b : glob_to_iptuple g = Ok (a, b) -> 0 <= a <= b /\ b < 2 ^ 32.
+Proof.
+  intros H. destruct (valid_glob g) eqn:V.
+  - apply C17.valid_glob_iff in V. destruct V as (fs & Hf & ->).
+    destruct (C17.convert_spec fs Hf) as (E & _ & _ & B1 & B2 & _). rewrite E in H. injection H as <- <-. split; assumption.
+  - unfold glob_to_iptuple in H. rewrite V in H. discriminate.
+Qed.
 
 Lemma src_ipglob_get_ok s e g : src_IPGlob_get_glob s e g = ipglob_str (obj_of s e g).
 Proof. destruct g; reflexivity. Qed.
@@ -366,8 +378,9 @@ Lemma src_ipglob_set_ok s e g ipglob : to_cidrs_wf ->
   match set_glob src_to_cidrs (obj_of s e g) ipglob with (o', None) => Ok (st_of o') | (_, Some ex) => Raise ex end.
 Proof.
   intros W. unfold src_IPGlob_set_glob, set_glob. rewrite src_glob_to_iptuple_ok.
-  destruct (glob_to_iptuple ipglob) as [[a b]|]; [|reflexivity]. cbn [omap bind fst snd].
-  rewrite (src_iprange_to_globs_v4_ok a b (W a b)).
+  destruct (glob_to_iptuple ipglob) as [[a b]|] eqn:EG; [|reflexivity]. cbn [omap bind fst snd].
+  destruct (iptuple_bounds _ _ _ EG) as [B1 B2].
+  rewrite (src_iprange_to_globs_v4_ok a b (fun nets => W a b nets B1 B2)).
   destruct (iprange_to_globs src_to_cidrs (4, a) (4, b)) as [gl|]; [|reflexivity]. cbn [bind]. rewrite first_glob.
   destruct (first_of gl); reflexivity.
 Qed.
@@ -375,9 +388,10 @@ Qed.
 Lemma src_ipglob_init_ok ipglob : to_cidrs_wf -> src_IPGlob_init ipglob = omap st_of (ipglob_new src_to_cidrs ipglob).
 Proof.
   intros W. unfold src_IPGlob_init, ipglob_new. rewrite src_glob_to_iptuple_ok.
-  destruct (glob_to_iptuple ipglob) as [[a b]|]; [|reflexivity]. cbn [omap bind fst snd]. unfold py_iprange_init. cbn [fst snd].
+  destruct (glob_to_iptuple ipglob) as [[a b]|] eqn:EG; [|reflexivity]. cbn [omap bind fst snd]. unfold py_iprange_init. cbn [fst snd].
   change (negb (4 =? 4)) with false. cbv iota. destruct (a >? b); [reflexivity|]. cbn [bind].
-  rewrite (src_iprange_to_globs_v4_ok a b (W a b)).
+  destruct (iptuple_bounds _ _ _ EG) as [B1 B2].
+  rewrite (src_iprange_to_globs_v4_ok a b (fun nets => W a b nets B1 B2)).
   destruct (iprange_to_globs src_to_cidrs (4, a) (4, b)) as [gl|]; [|reflexivity]. cbn [bind]. rewrite first_glob.
   destruct (first_of gl) as [g|]; [|reflexivity]. cbn [bind].
   rewrite (src_ipglob_set_ok (4, a) (4, b) None g W). unfold obj_of. cbn [fst snd].
@@ -387,12 +401,14 @@ Qed.
 Lemma src_ipglob_getstate_ok s e g : fst s = 4 -> src_IPGlob_getstate s e g = ipglob_getstate (obj_of s e g).
 Proof. intros H. unfold src_IPGlob_getstate, py_iprange_getstate, ipglob_getstate, obj_of. cbn [g_start g_end]. rewrite H. reflexivity. Qed.
 
-Lemma src_ipglob_setstate_ok st : to_cidrs_wf -> src_IPGlob_setstate st = omap st_of (ipglob_setstate src_to_cidrs st).
+Lemma src_ipglob_setstate_ok s e ver : s <= e -> to_cidrs_wf ->
+  src_IPGlob_setstate (s, e, ver) = omap st_of (ipglob_setstate src_to_cidrs (s, e, ver)).
 Proof.
-  intros W. destruct st as [[s e] ver]. unfold src_IPGlob_setstate, ipglob_setstate, py_iprange_setstate, addr_of_int_ver.
+  intros LE W. unfold src_IPGlob_setstate, ipglob_setstate, py_iprange_setstate, addr_of_int_ver.
   destruct (ver =? 4) eqn:E4.
-  - destruct (in_range_w 32 s); [|reflexivity]. cbn [bind]. destruct (in_range_w 32 e); [|reflexivity]. cbn [bind fst snd].
-    rewrite (src_iprange_to_globs_v4_ok s e (W s e)).
+  - destruct (in_range_w 32 s) eqn:Rs; [|reflexivity]. cbn [bind]. destruct (in_range_w 32 e) eqn:Re; [|reflexivity]. cbn [bind fst snd].
+    unfold in_range_w, max_int_w in Rs, Re.
+    rewrite (src_iprange_to_globs_v4_ok s e (fun nets => W s e nets ltac:(lia) ltac:(lia))).
     destruct (iprange_to_globs src_to_cidrs (4, s) (4, e)) as [gl|]; [|reflexivity]. cbn [bind]. rewrite first_glob.
     destruct (first_of gl) as [g|]; [|reflexivity]. cbn [bind].
     rewrite (src_ipglob_set_ok (4, s) (4, e) None g W). unfold obj_of. cbn [fst snd].
@@ -429,7 +445,8 @@ Lemma C17_tie_ok :
      match set_glob src_to_cidrs (obj_of s e g) ipglob with (o', None) => Ok (st_of o') | (_, Some ex) => Raise ex end) /\
   (forall ipglob, to_cidrs_wf -> src_IPGlob_init ipglob = omap st_of (ipglob_new src_to_cidrs ipglob)) /\
   (forall s e g, fst s = 4 -> src_IPGlob_getstate s e g = ipglob_getstate (obj_of s e g)) /\
-  (forall st, to_cidrs_wf -> src_IPGlob_setstate st = omap st_of (ipglob_setstate src_to_cidrs st)).
+  (forall s e ver, s <= e -> to_cidrs_wf ->
+     src_IPGlob_setstate (s, e, ver) = omap st_of (ipglob_setstate src_to_cidrs (s, e, ver))).
 Proof.
   split; [exact src_octet_value_ok|]. split; [exact src_valid_glob_loop_ok|]. split; [exact src_valid_glob_ok|].
   split; [exact src_glob_to_iptuple_ok|]. split; [exact src_glob_to_iprange_ok|]. split; [exact src_i2g_ok|].
